@@ -6,6 +6,7 @@ Model (JSON):
             "srcdir": "." | "src",                 # where the package lives (search path relative to the repository root)
             "gitignore": bool,                     # a committed .gitignore listing __pycache__/
             "commits": [commit, ...],              # 2..4, on branch main
+            "vendored_symlink": bool,              # the repository tracks a symlink <pkg>/vendor -> ../_vendored (a directory with modules)
             "late_package": bool,                  # the package only appears with the second commit (first commit: absent)
             "tags": [[name_index, commit_index], ...],
             "branches": [[name_index, commit_index], ...],      # BRANCH_NAMES contains names with slashes
@@ -23,6 +24,8 @@ Model (JSON):
                                                    # "<pkg>sib" (loaded on demand with resolve_external=True only)
             "ops": [op, ...]}                      # 1..3 operations, each judged against the snapshot taken before it
     commit = {"state": "ok" | "syntax_top" | "syntax_sub" | "absent", "variant": 0..3,
+              "gen_file": bool,                          # this version of the package writes a generated file next to its sources when
+                                                         # it is imported (version stamp, parser tables, ...): only inspection runs it
               "msg": int}                                # index into COMMIT_MESSAGES (ASCII, UTF-8, raw Latin-1 bytes, very long,
                                                          # multi-line, control characters)
     op = {"op": "load_git" | "check",
@@ -103,7 +106,7 @@ def sibling_name(name: str, sibling) -> str | None:
     return None
 
 
-def render_commit(name: str, commit: dict, j: int, sibling=None) -> dict[str, str]:
+def render_commit(name: str, commit: dict, j: int, sibling=None, vendored=False) -> dict:
     """Files of the package(s) (relative to the source dir) at one commit; {} when the package is absent."""
     state, v = commit["state"], commit["variant"] % 4
     sib = sibling_name(name, sibling)
@@ -115,6 +118,13 @@ def render_commit(name: str, commit: dict, j: int, sibling=None) -> dict[str, st
         a_lines += ["def f1(p, q, *rest, flag=False):", "    if flag:", "        return q", "    return p", ""]
     if v >= 2:
         a_lines += ["def f2(only):", "    return only", ""]
+    if commit.get("gen_file"):
+        a_lines += [
+            "import os as _os",
+            "with open(_os.path.join(_os.path.dirname(_os.path.abspath(__file__)), '_generated_at_import.txt'), 'w') as _fh:",
+            "    _fh.write('generated when the package is imported\\n')",
+            "",
+        ]
     a_lines += ["CONST = 7", ""]  # same at every commit: a changed value would be a breakage of its own and mask the others
     b_lines = [f'"""Module b (commit {j})."""', "", "class K:", f'    """Class K v{v}."""', "", "    attr: int = 0", ""]
     b_lines += ["    def m(self, a" + (", b=None" if v % 2 else "") + "):", "        return a", ""]
@@ -139,6 +149,10 @@ def render_commit(name: str, commit: dict, j: int, sibling=None) -> dict[str, st
         impl += ["def sfunc(a" + ("" if v % 2 else ", b") + "):", f'    """Sibling function v{v}."""', "    return a", ""]
         impl += ["class SK:", "    def sm(self):", "        return 0", ""]
         files[f"{sib}/impl.py"] = "\n".join(impl)
+    if vendored:
+        files["_vendored/__init__.py"] = '"""Vendored code."""\n'
+        files["_vendored/x.py"] = f'"""Vendored module (commit {j})."""\n\n\ndef vx(a, b=0):\n    """Vendored function."""\n    return a\n\n\nclass VK:\n    def vm(self):\n        return {v}\n'
+        files[f"{name}/vendor"] = ("SYMLINK", "../_vendored")
     if state == "syntax_top":
         files[f"{name}/__init__.py"] = f'"""Package {name}."""\n\ndef broken(:\n    pass\n'
     elif state == "syntax_sub":
@@ -166,13 +180,17 @@ def build_repo(case, base: Path) -> dict:
     shas = []
     prev: set[str] = set()
     for j, commit in enumerate(case["commits"]):
-        files = render_commit(name, commit, j, case.get("sibling"))
-        for rel in prev - set(files):
+        files = render_commit(name, commit, j, case.get("sibling"), bool(case.get("vendored_symlink")))
+        for rel in sorted(prev - set(files), key=lambda r: (not r.endswith("/vendor"), r)):  # the symlink before its target
             (src / rel).unlink()
         for rel, text in files.items():
             p = src / rel
             p.parent.mkdir(parents=True, exist_ok=True)
-            p.write_text(text)
+            if isinstance(text, tuple):
+                if not p.is_symlink():
+                    os.symlink(text[1], p)
+            else:
+                p.write_text(text)
         prev = set(files)
         (repo / "README.md").write_text(f"# {name}\n\nrevision {j}\n")
         if case.get("gitignore") and j == 0:
@@ -230,7 +248,7 @@ def build_repo(case, base: Path) -> dict:
         head_commit = max(0, len(shas) - 2)
         git(repo, "checkout", "-q", "--detach", shas[head_commit])
     info = {"repo": repo, "name": name, "sibling": sibling_name(name, case.get("sibling")), "shas": shas, "tags": tags, "branches": branches, "head_commit": head_commit, "src": src,
-            "commit_states": [c["state"] for c in case["commits"]],
+            "commit_states": [c["state"] for c in case["commits"]], "vendored": bool(case.get("vendored_symlink")),
             "local_branches": local_branches, "clone": clone, "local_tags": (set() if clone and case.get("clone_no_tags") else set(tags)), "user_worktrees": [], "base": base}
     # ---- the user's own uncommitted work, which must survive
     d = case["dirty"]
@@ -303,7 +321,7 @@ def strategy():
     from hypothesis import strategies as st
 
     commit = st.fixed_dictionaries(
-        {"state": st.sampled_from(["ok"] * 7 + ["syntax_top", "syntax_sub", "absent"]), "variant": st.integers(0, 3), "msg": st.sampled_from([0, 0, 1, 2, 2, 3, 4, 5])}
+        {"state": st.sampled_from(["ok"] * 7 + ["syntax_top", "syntax_sub", "absent"]), "variant": st.integers(0, 3), "gen_file": st.sampled_from([False, False, True]), "msg": st.sampled_from([0, 0, 1, 2, 2, 3, 4, 5])}
     )
     refspec = st.tuples(st.sampled_from(["tag", "tag", "branch", "branch", "slashed", "slashed", "remote", "sha", "short", "absent", "HEAD", "HEAD~1", "main", "unknown"]), st.integers(0, 3)).map(list)
     ext_fault = st.fixed_dictionaries({"type": st.sampled_from(["ext_exc", "ext_kbi"]), "k": st.integers(0, 400)})
@@ -338,6 +356,7 @@ def strategy():
             "user_worktree": st.sampled_from([False, False, False, True]),
             "sibling": st.sampled_from([None, "private", "private", "public"]),
             "late_package": st.sampled_from([False, False, True]),
+            "vendored_symlink": st.sampled_from([False, False, True]),
             "clone": st.sampled_from([None, None, None, "path", "file"]),
             "clone_no_tags": st.sampled_from([False, False, True]),
             "upstream_after": st.booleans(),
